@@ -45,8 +45,26 @@ func (w *Worker) findIntrinsic(fn *ssa.Function) intrinsic {
 			return in
 		}
 	}
-	// package initialisers of dependencies are not executed
-	if fn.Name() == "init" && fn.Pkg != nil && fn.Pkg != w.eng.Pkg && fn.Signature.Recv() == nil {
+	// package initialisers of dependencies: only a whitelist is executed, in
+	// best-effort mode (an initialiser statement that the engine cannot
+	// execute leaves its variable zeroed); all others are skipped.
+	if fn.Name() == "init" && fn.Pkg != nil && fn.Pkg != w.eng.Pkg && fn.Signature.Recv() == nil && fn.Synthetic != "" {
+		path := fn.Pkg.Pkg.Path()
+		if bestEffortInitPkgs[path] {
+			return func(fr *frame, args []value) value {
+				fr.w.bestEffortInit(fn)
+				return nil
+			}
+		}
+		if optInInitPkgs[path] != "" {
+			key := optInInitPkgs[path]
+			return func(fr *frame, args []value) value {
+				if fr.w.h.Init[key] {
+					fr.w.bestEffortInit(fn)
+				}
+				return nil
+			}
+		}
 		return nop
 	}
 	if name == "github.com/fxamacker/circlehash.Hash64Uint64x2" {
@@ -72,6 +90,18 @@ func (w *Worker) findIntrinsic(fn *ssa.Function) intrinsic {
 		}
 	}
 	return nil
+}
+
+// packages initialised only for harnesses that ask for them (//vh:init <key>)
+var optInInitPkgs = map[string]string{
+	"github.com/fxamacker/cbor/v2": "cbor",
+}
+
+var bestEffortInitPkgs = map[string]bool{
+	"bytes":                        true,
+	"io":                           true,
+	"errors":                       true,
+	"encoding/binary":              true,
 }
 
 func str(v value) string {
@@ -215,6 +245,10 @@ func init() {
 				panic(pathEnd{kind: "assume"})
 			}
 			return w.tb.Const(t.W, uint64(i))
+		},
+		"vhSetAllocLimit": func(fr *frame, a []value) value {
+			fr.w.allocLimit = fr.w.asInt(a[0], "alloc limit")
+			return nil
 		},
 		"vhSymbolic": func(fr *frame, a []value) value { return fr.w.tb.True },
 		"vhIsConst": func(fr *frame, a []value) value {
